@@ -28,7 +28,13 @@ def idsStr {R : Type} (l : List (Item R)) : String :=
 def boolStr (b : Bool) : String := if b then "T" else "F"
 
 section Generic
-variable {α : Type} [RectOps (Rect α) (Point α)]
+variable {α : Type} [RectOps (Rect α) (Point α)] [DecidableEq α]
+
+/-- the package's contract (`QT.OpOKI`): an object of which an entry is stored still has the bounds it was stored with.
+    Generated histories respect it; a history cut down by the minimiser may not, then the line is skipped on both
+    sides. -/
+def contractOK (t : Tree (Rect α)) (id : Nat) (r : Rect α) : Bool :=
+  t.all.all (fun x => !(x.id == id) || (decide (x.rect.x = r.x) && decide (x.rect.y = r.y) && decide (x.rect.w = r.w) && decide (x.rect.h = r.h)))
 
 def stateStr (t : Tree (Rect α)) : String :=
   if t.fuelOK fuel then "n=" ++ toString t.size ++ " all=" ++ idsStr t.all else "out-of-fuel"
@@ -51,12 +57,14 @@ def stepT (num? : String → Option α) (t : Tree (Rect α)) (ws : List String) 
   | ["ins", id, x, y, w, h] =>
     match id.toNat?, num? x, num? y, num? w, num? h with
     | some id, some x, some y, some w, some h =>
+      if !contractOK t id ⟨x, y, w, h⟩ then (t, "contract") else
       let t' := t.insert fuel ⟨id, ⟨x, y, w, h⟩⟩
       (t', stateStr t')
     | _, _, _, _, _ => (t, "bad-op")
   | ["rm", id, x, y, w, h] =>
     match id.toNat?, num? x, num? y, num? w, num? h with
     | some id, some x, some y, some w, some h =>
+      if !contractOK t id ⟨x, y, w, h⟩ then (t, "contract") else
       let t' := t.remove id ⟨x, y, w, h⟩
       (t', stateStr t')
     | _, _, _, _, _ => (t, "bad-op")
